@@ -544,7 +544,7 @@ def apply_post(sc, post):
     return sc
 
 
-def run_case(camp, seed, tier='quick'):
+def run_case(camp, seed, tier='quick', prop=None):
     sc = gen.generate(camp['profile'], seed, camp.get('params'))
     post = camp.get('post')
     if post is not None:
@@ -577,7 +577,7 @@ def run_case(camp, seed, tier='quick'):
             sc['errnos'] = camp.get('errnos', ['ENOSPC', 'EACCES', 'EIO'])
             sc['torn'] = camp.get('torn', True)
             sc['crash_end'] = camp.get('crash_end', False)
-        res = run_scenario(sc)
+        res = run_scenario(sc, {'prop': prop})
         if res['verdict'] == 'violation' and res.get('fault') is not None:
             # the replayable form carries the one fault that failed
             sc = dict(sc)
